@@ -938,7 +938,7 @@ str_case_cmp (char *a, char *b)
   COPY_PTR (&s1, a);
   COPY_PTR (&s2, b);
 
-  return (int)(s1 - s2);
+  return (s1 > s2) - (s1 < s2);	/* not (int)(s1 - s2): 64-bit pointers */
 }				/* str_case_cmp() */
 
 static void
